@@ -645,8 +645,9 @@ func (r *PipelineRunner) resolveScheduleAction(pipeline string, ignoreStartDelay
 }
 
 func (r *PipelineRunner) resolveDequeueJobAction(job *PipelineJob) scheduleAction {
-	// Start the job if it had a start delay but the timer finished
-	ignoreStartDelay := job.StartDelay > 0 && job.startTimer == nil
+	// The start delay of the current definition only applies to new jobs: a queued job waits for its own
+	// start timer (if it has one), so start it if the timer finished or if it was queued without a delay
+	ignoreStartDelay := job.startTimer == nil
 	return r.resolveScheduleAction(job.Pipeline, ignoreStartDelay)
 }
 
